@@ -1,6 +1,8 @@
 import Driver.Proto
 import Gotree.Spec.C02
 import Gotree.Model.C02Readers
+import Gotree.Model.C02Dispatch
+import Gotree.Model.C02Writers
 import Gotree.Model.C02Chan
 import Gotree.Model.C01
 
@@ -139,17 +141,16 @@ def tieDecoded (fmt decoded outcome : String) (recs : List ObsRec) : Option Stri
   | "phyloxml" | "phyloxmlm" =>
     match parsePx decoded with
     | none => some (untiedWhy decoded)
-    | some none =>
-      if fmt == "phyloxml" then tieOut (.err "xml") outcome recs else tieOut (.ok [⟨0, none⟩]) outcome recs
-    | some (some ps) =>
-      if fmt == "phyloxml" then tieOut (Readers.phyloxmlOne ps) outcome recs else tieOut (Readers.phyloxmlMulti ps) outcome recs
+    | some px =>
+      -- through the `switch format` of the entry points (FORMAT_PHYLOXML = 2); `px = none`: the decoder refused
+      if fmt == "phyloxml" then tieOut (Readers.readTreeReader { px := px } 2) outcome recs
+      else tieOut (Readers.readMultiTrees { px := px } 2) outcome recs
   | "nextstrain" | "nextstrainm" =>
     match parseNsDoc decoded with
     | none => some (untiedWhy decoded)
-    | some none =>
-      if fmt == "nextstrain" then tieOut (.err "json") outcome recs else tieOut (.ok [⟨0, none⟩]) outcome recs
-    | some (some (v, n)) =>
-      if fmt == "nextstrain" then tieOut (Readers.nextstrainOne v n) outcome recs else tieOut (Readers.nextstrainMulti v n) outcome recs
+    | some ns =>
+      if fmt == "nextstrain" then tieOut (Readers.readTreeReader { ns := ns } 3) outcome recs
+      else tieOut (Readers.readMultiTrees { ns := ns } 3) outcome recs
   | _ => none
 
 /-- name of a control point, for the coverage report of the driver -/
@@ -261,6 +262,7 @@ def exactOut (m : Readers.ROut) (recs : List ObsRec) : Bool :=
 def pastFirst (fmt bufsize : String) (bytes : List UInt8) (decoded : String) : Bool :=
   match fmt with
   | "phyloxml" | "phyloxmlm" | "nextstrain" | "nextstrainm" => decoded != "E" && decoded != ""
+  | "bad" | "badm" => false
   | _ => bytes.length > 0 && (modelInfo fmt bufsize bytes).2
 
 def bufSize' (s : String) : Nat := match s.toNat? with | some n => if n < 16 then 4096 else n | none => 4096
@@ -277,9 +279,12 @@ def tieModel (fmt bufsize : String) (bytes : List UInt8) (decoded outcome : Stri
       | some o => (tieOut o outcome recs).map ("C01 " ++ ·)
       | none => none
   | "multi" =>
-    tieOut (Readers.multiNewick (Readers.chunksOf (bufSize' bufsize) bytes)) outcome recs
-  | "nexus" => tieOut (Readers.nexusOne bytes) outcome recs
-  | "nexusm" => tieOut (Readers.nexusMulti bytes) outcome recs
+    tieOut (Readers.readMultiTrees { chunks := Readers.chunksOf (bufSize' bufsize) bytes } 0) outcome recs
+  | "nexus" => tieOut (Readers.readTreeReader { bytes := bytes } 1) outcome recs
+  | "nexusm" => tieOut (Readers.readMultiTrees { bytes := bytes } 1) outcome recs
+  -- the `default` branches: the harness calls ReadTreeReader(r, 7) and ReadMultiTrees(r, -1)
+  | "bad" => tieOut (Readers.readTreeReader { bytes := bytes } 7) outcome recs
+  | "badm" => tieOut (Readers.readMultiTrees { bytes := bytes } (-1)) outcome recs
   | _ => tieDecoded fmt decoded outcome recs
 
 /-- the end of a handler: PASS, TIE, or — for a case the model could not be applied to — PASS with the tag
@@ -356,6 +361,7 @@ def handle (op : String) (f : List String) : Verdict :=
     | some bytes, some recs =>
       let trees := recs.filter (·.isTree)
       let tags := [fmt, "out-" ++ (if outcomeAllowed outcome then outcome else "crash")] ++
+        tagIf (fmt == "bad" || fmt == "badm") "unsupported-format" ++
         tagIf (trees.length ≥ 1) "delivered" ++ tagIf (trees.length ≥ 2) "delivered-many" ++
         tagIf (recs.any (! ·.isTree)) "record-err" ++
         tagIf (trees.any (·.use == "err")) "use-err" ++
@@ -391,6 +397,32 @@ def handle (op : String) (f : List String) : Verdict :=
             ⟨.pass, tags ++ fid, ""⟩
           | some d => conclude tags (some d)
     | _, _ => bad "C02.read fields"
+  | "wb", [fmt, _input, outcome, itemsS] =>
+    -- written back: `class:dump:newick:nexus:phyloxml|` per delivered tree.  Oracle: the writers returned.
+    -- The texts are compared with the writer models as FIDELITY (tags; they decide nothing).
+    let items := (splitTerm "|" itemsS).map (·.splitOn ":")
+    let crashedW := items.filter fun it => match it with | c :: _ => c.startsWith "panic" | [] => false
+    let cmp : List (List String) := items.map fun it =>
+      match it with
+      | [_, dump, nw, nx, px] =>
+        match T.undump dump, unescape nw, unescape nx, unescape px with
+        | some t, some nw, some nx, some px =>
+          (if Writers.newickText t == nw then ["wb-newick-exact"] else ["wb-newick-differs"]) ++
+          (if Writers.nexusText t == nx then ["wb-nexus-exact"] else ["wb-nexus-differs"]) ++
+          (if Writers.phyloxmlText t == px then ["wb-phyloxml-exact"] else ["wb-phyloxml-differs"]) ++
+          tagIf (Writers.wellNested (Writers.phylogenyLines t) 0) "wb-well-nested" ++
+          tagIf (t.kids.length ≤ 1) "wb-degenerate-root"
+        | _, _, _, _ => ["wb-not-comparable"]
+      | _ => ["wb-bad-item"]
+    let ftags := (cmp.flatten).eraseDups
+    let tags := ["wb", "wb-" ++ fmt] ++ tagIf (!items.isEmpty) "nontrivial" ++ ftags
+    if !(outcomeAllowed outcome) then ⟨.oracle, tags, "reader outcome " ++ short outcome⟩
+    else match crashedW with
+      | it :: _ => ⟨.oracle, tags, "writing a delivered tree back crashed: " ++ short (":".intercalate (it.take 2))⟩
+      | [] =>
+        if ftags.contains "wb-bad-item" then bad "C02.wb item" else
+        let firstDiff := (items.zip cmp).find? fun (_, c) => c.any (·.endsWith "-differs")
+        ⟨.pass, tags, match firstDiff with | some (it, c) => "fidelity: " ++ " ".intercalate (c.filter (·.endsWith "-differs")) ++ " on " ++ short ((it.drop 1).headD "") | none => ""⟩
   | "cli", [flag, input, outcome, _nl, transport, decoded] =>
     match unescapeToBytes input with
     | some bytes =>
